@@ -149,7 +149,9 @@ class _Eval:
 
     def wit(self, key, desc, extra=None):
         self.failed = True
-        self.ctx.witness(key, desc, self.case(extra))
+        # the replayable case is only built while the framework still stores witnesses of this mechanism
+        full = self.ctx._wit_per_key[key] < 5  # noqa: SLF001
+        self.ctx.witness(key, desc, self.case(extra) if full else None)
 
     def call(self, name, fn, *a, **kw):
         """Calls into pynguin; an exception is a witness (the value must exist for every valid pair)."""
